@@ -139,6 +139,12 @@ def _canon(P, f, keep=()):
     counter = [0]
 
     def loop_over(coll, q, elem, at):
+        if elem is None and isinstance(coll, ast.GeneratorExp) and len(coll.generators) == 1 and not coll.generators[0].ifs:
+            # Q.extend(<elt> for <t> in <iter>)  ->  for <t> in <iter>: Q.append(<elt>)
+            g0 = coll.generators[0]
+            body = ast.Expr(value=ast.Call(func=ast.Attribute(value=ast.Name(id=q, ctx=ast.Load()), attr="append", ctx=ast.Load()), args=[coll.elt], keywords=[]))
+            lp = ast.For(target=g0.target, iter=g0.iter, body=[body], orelse=[])
+            return ast.fix_missing_locations(ast.copy_location(lp, at))
         counter[0] += 1
         v = "_v%d" % counter[0]
         body = ast.Expr(value=ast.Call(func=ast.Attribute(value=ast.Name(id=q, ctx=ast.Load()), attr="append", ctx=ast.Load()),
@@ -184,6 +190,41 @@ def _canon(P, f, keep=()):
                 merged.append(st)
         return merged
     node.body = rewrite(node.body)
+    # a queue of (a, b) pairs is read as two queues that are, by construction, in step: Q.append((a, b)) -> Q.append(a); Q__2.append(b)
+    # and `x, y = Q.popleft()` -> x = Q.popleft(); y = Q__2.popleft()
+    pair_q = {n.value.func.value.id for n in ast.walk(node) if isinstance(n, ast.Assign) and len(n.targets) == 1 and isinstance(n.targets[0], ast.Tuple)
+              and len(n.targets[0].elts) == 2 and isinstance(n.value, ast.Call) and isinstance(n.value.func, ast.Attribute)
+              and n.value.func.attr in ("pop", "popleft") and isinstance(n.value.func.value, ast.Name)}
+
+    def split(stmts):
+        out = []
+        for st in stmts:
+            for fld in ("body", "orelse", "finalbody"):
+                sub = getattr(st, fld, None)
+                if isinstance(sub, list) and sub and isinstance(sub[0], ast.stmt):
+                    setattr(st, fld, split(sub))
+            if isinstance(st, ast.Expr) and isinstance(st.value, ast.Call) and isinstance(st.value.func, ast.Attribute) and st.value.func.attr == "append" \
+                    and isinstance(st.value.func.value, ast.Name) and st.value.func.value.id in pair_q and st.value.args \
+                    and isinstance(st.value.args[0], ast.Tuple) and len(st.value.args[0].elts) == 2:
+                q = st.value.func.value.id
+                for k, nm in enumerate((q, q + "__2")):
+                    e_ = ast.Expr(value=ast.Call(func=ast.Attribute(value=ast.Name(id=nm, ctx=ast.Load()), attr="append", ctx=ast.Load()),
+                                                 args=[st.value.args[0].elts[k]], keywords=[]))
+                    out.append(ast.fix_missing_locations(ast.copy_location(e_, st)))
+                continue
+            if isinstance(st, ast.Assign) and len(st.targets) == 1 and isinstance(st.targets[0], ast.Tuple) and len(st.targets[0].elts) == 2 \
+                    and isinstance(st.value, ast.Call) and isinstance(st.value.func, ast.Attribute) and st.value.func.attr in ("pop", "popleft") \
+                    and isinstance(st.value.func.value, ast.Name) and st.value.func.value.id in pair_q:
+                q = st.value.func.value.id
+                for k, nm in enumerate((q, q + "__2")):
+                    a_ = ast.Assign(targets=[st.targets[0].elts[k]], value=ast.Call(func=ast.Attribute(value=ast.Name(id=nm, ctx=ast.Load()), attr=st.value.func.attr, ctx=ast.Load()),
+                                                                                 args=[], keywords=[]))
+                    out.append(ast.fix_missing_locations(ast.copy_location(a_, st)))
+                continue
+            out.append(st)
+        return out
+    if pair_q:
+        node.body = split(node.body)
     ast.fix_missing_locations(node)
     for parent in ast.walk(node):
         for child in ast.iter_child_nodes(parent):
@@ -398,6 +439,68 @@ def check_c08(ctx, R):
                       "the children of the clone are never visited and keep sharing" % var)
     if not mk_calls:
         R.bad("U4", "%s|never-unique" % entry.key, entry.loc(w), "uniquify never calls %s on the instance taken from the queue" % mk.name)
+    # truth-table evaluation of the condition under which the instance is made unique, over the two facts it may depend on:
+    # A = "the reference has exactly one instance", B = "the reference is a leaf".  It must run exactly when (not A) and (not B).
+    # Boolean locals, aliases of `<inst>.reference` and a predicate helper of the module are looked through.
+    def make_eval(scope_node, binding):
+        defs = {}
+        for a_ in ast.walk(scope_node):
+            if isinstance(a_, ast.Assign) and len(a_.targets) == 1 and isinstance(a_.targets[0], ast.Name):
+                defs.setdefault(a_.targets[0].id, []).append(a_.value)
+
+        def ref_of(e, depth=0):
+            """does the expression denote <the instance>.reference ?"""
+            t = norm(e)
+            if t in ("%s.reference" % binding, "%s._reference" % binding):
+                return True
+            if isinstance(e, ast.Name) and len(defs.get(e.id, [])) == 1 and depth < 4:
+                return ref_of(defs[e.id][0], depth + 1)
+            return False
+
+        def ev(e, A, B, depth=0):
+            if depth > 6:
+                return None
+            if isinstance(e, ast.UnaryOp) and isinstance(e.op, ast.Not):
+                v = ev(e.operand, A, B, depth + 1)
+                return None if v is None else (not v)
+            if isinstance(e, ast.BoolOp):
+                vs = [ev(v, A, B, depth + 1) for v in e.values]
+                if any(v is None for v in vs):
+                    return None
+                return all(vs) if isinstance(e.op, ast.And) else any(vs)
+            if isinstance(e, ast.Compare) and len(e.ops) == 1 and isinstance(e.comparators[0], ast.Constant) and e.comparators[0].value == 1 \
+                    and isinstance(e.left, ast.Call) and norm(e.left.func) == "len" and e.left.args and isinstance(e.left.args[0], ast.Attribute) \
+                    and e.left.args[0].attr in ("references", "_references") and ref_of(e.left.args[0].value):
+                if isinstance(e.ops[0], ast.Eq):
+                    return A
+                if isinstance(e.ops[0], ast.NotEq):
+                    return not A
+                if isinstance(e.ops[0], ast.Gt):
+                    return not A  # len > 1  (a referenced definition has at least one instance)
+                return None
+            if isinstance(e, ast.Compare) and len(e.ops) == 1 and isinstance(e.ops[0], (ast.Is, ast.Eq, ast.IsNot, ast.NotEq)) \
+                    and isinstance(e.comparators[0], ast.Constant) and isinstance(e.comparators[0].value, bool):
+                v = ev(e.left, A, B, depth + 1)
+                if v is None:
+                    return None
+                same = isinstance(e.ops[0], (ast.Is, ast.Eq))
+                return v == e.comparators[0].value if same else v != e.comparators[0].value
+            if isinstance(e, ast.Call) and isinstance(e.func, ast.Attribute) and e.func.attr == "is_leaf" and not e.args and ref_of(e.func.value):
+                return B
+            if isinstance(e, ast.Call) and isinstance(e.func, ast.Attribute) and e.func.attr == "is_unique" and not e.args and norm(e.func.value) == binding:
+                return A or B
+            if isinstance(e, ast.Call) and isinstance(e.func, ast.Name) and e.func.id in mod.functions and len(e.args) == 1 and norm(e.args[0]) == binding:
+                h = mod.functions[e.func.id]
+                body = [s_ for s_ in h.node.body if not (isinstance(s_, ast.Expr) and isinstance(s_.value, ast.Constant))]
+                if len(h.params) == 1 and len(body) == 1 and isinstance(body[0], ast.Return) and body[0].value is not None:
+                    return make_eval(h.node, h.params[0])(body[0].value, A, B)
+                return None
+            if isinstance(e, ast.Name) and len(defs.get(e.id, [])) == 1:
+                return ev(defs[e.id][0], A, B, depth + 1)
+            return None
+        return lambda e, A, B: ev(e, A, B)
+
+    evaluate = make_eval(entry.node, var)
     for c in mk_calls:
         tests = []
         prev = c
@@ -407,37 +510,27 @@ def check_c08(ctx, R):
             if isinstance(p, ast.If):
                 tests.append((p.test, any(prev is s_ or any(prev is z for z in ast.walk(s_)) for s_ in p.body)))
             prev = p
-        ok = False
-        pred = None
-        if len(tests) == 1:
-            t, in_body = tests[0]
-            neg = False
-            while isinstance(t, ast.UnaryOp) and isinstance(t.op, ast.Not):
-                neg = not neg
-                t = t.operand
-            if isinstance(t, ast.Call) and len(t.args) == 1 and norm(t.args[0]) == var and isinstance(t.func, ast.Name) and t.func.id in mod.functions:
-                pred = mod.functions[t.func.id]
-                ok = (neg and in_body) or (not neg and not in_body)
-            elif isinstance(t, ast.Call) and isinstance(t.func, ast.Attribute) and norm(t.func.value) == var and t.func.attr == "is_unique" and not t.args:
-                ok = (neg and in_body) or (not neg and not in_body)
-                pred = "method"
-        if ok:
-            R.ok("U4", "%s(%s) runs exactly when the uniqueness test on `%s` fails" % (mk.name, var, var), entry.loc(c))
+        verdict = []
+        for A in (False, True):
+            for B in (False, True):
+                runs = True
+                for t, in_body in tests:
+                    v = evaluate(t, A, B)
+                    if v is None:
+                        runs = None
+                        break
+                    runs = runs and (v if in_body else not v)
+                verdict.append((A, B, runs))
+        if tests and all(r is not None for _, _, r in verdict) and all(r == ((not A) and (not B)) for A, B, r in verdict):
+            R.ok("U4", "%s(%s) runs exactly when the reference of `%s` has several instances and is not a leaf" % (mk.name, var, var), entry.loc(c))
+            R.ok("U4", "the uniqueness test looks at the number of instances of the reference and at leaf-ness", entry.loc(c))
         else:
+            why = "depends on something other than the number of instances of the reference and its leaf-ness" if any(r is None for _, _, r in verdict) or not tests else \
+                "runs for (one instance: %s, leaf: %s)" % next((A, B) for A, B, r in verdict if r != ((not A) and (not B)))
             R.bad("U4", "%s|guard" % entry.key, entry.loc(c),
-                  "%s(%s) is not guarded by the plain negation of the uniqueness test on `%s` (guards: %s): shared instances are left alone or unique ones "
-                  "are cloned again (a second run then changes the netlist)" % (mk.name, var, var, "; ".join(short(t, 40) for t, b in tests) or "none"))
-        if isinstance(pred, type(mk)):
-            body = norm(pred.node)
-            uses_refs = ".references" in body and pred.params and ("%s.reference" % pred.params[0]) in body
-            uses_leaf = "is_leaf" in body
-            cmp_one = any(isinstance(x, ast.Compare) and len(x.ops) == 1 and isinstance(x.ops[0], ast.Eq) and isinstance(x.comparators[0], ast.Constant)
-                          and x.comparators[0].value == 1 and "references" in norm(x.left) for x in ast.walk(pred.node))
-            if uses_refs and uses_leaf and cmp_one:
-                R.ok("U4", "%s: exactly one instance of the reference, or a leaf" % pred.qualname, pred.loc())
-            else:
-                R.bad("U4", "%s|test" % pred.key, pred.loc(),
-                      "%s does not test `len(<instance>.reference.references) == 1` or leaf-ness: which instances count as already unique is wrong" % pred.qualname)
+                  "%s(%s) must run exactly when the reference of `%s` has more than one instance and is not a leaf; the condition it is under (%s) %s: shared "
+                  "instances are left alone or unique ones are cloned again (a second run then changes the netlist)"
+                  % (mk.name, var, var, "; ".join(short(t, 40) for t, b in tests) or "none", why))
 
 
 # -- C09 -----------------------------------------------------------------------------------------
